@@ -7,7 +7,7 @@ use crate::json::J;
 use crate::lua::{self, Loaded};
 use crate::rel::compile_budgeted;
 use crate::rng::{hash64, Rng};
-use crate::sy::Compiled;
+use crate::sy::{self, Compiled};
 
 pub struct C19;
 
@@ -359,6 +359,26 @@ impl Check for C19 {
                         lines.push(Line { expr: format!("v{} >= v{}", i, j), expect: Some((o != Less).to_string()), key: (i, j, ">=") });
                     }
                 }
+                // the same comparisons with one operand written as a literal (a compiler may treat a
+                // syntactically constant operand differently, e.g. mirror the comparison)
+                if i == j || i == j + 1 || j == i + 1 {
+                    let (la, lb) = (lit(a), lit(b));
+                    lines.push(Line { expr: format!("{} == v{}", la, j), expect: Some((a == b).to_string()), key: (i, j, "lit==") });
+                    lines.push(Line { expr: format!("v{} != {}", i, lb), expect: Some((a != b).to_string()), key: (i, j, "!=lit") });
+                    if ord {
+                        if let Some(o) = cmp(a, b) {
+                            use std::cmp::Ordering::*;
+                            lines.push(Line { expr: format!("{} < v{}", la, j), expect: Some((o == Less).to_string()), key: (i, j, "lit<") });
+                            lines.push(Line { expr: format!("{} <= v{}", la, j), expect: Some((o != Greater).to_string()), key: (i, j, "lit<=") });
+                            lines.push(Line { expr: format!("{} > v{}", la, j), expect: Some((o == Greater).to_string()), key: (i, j, "lit>") });
+                            lines.push(Line { expr: format!("{} >= v{}", la, j), expect: Some((o != Less).to_string()), key: (i, j, "lit>=") });
+                            lines.push(Line { expr: format!("v{} < {}", i, lb), expect: Some((o == Less).to_string()), key: (i, j, "<lit") });
+                            lines.push(Line { expr: format!("v{} <= {}", i, lb), expect: Some((o != Greater).to_string()), key: (i, j, "<=lit") });
+                            lines.push(Line { expr: format!("v{} > {}", i, lb), expect: Some((o == Greater).to_string()), key: (i, j, ">lit") });
+                            lines.push(Line { expr: format!("v{} >= {}", i, lb), expect: Some((o != Less).to_string()), key: (i, j, ">=lit") });
+                        }
+                    }
+                }
                 if (num || addable(&t)) && i <= j + 1 {
                     for op in ['+', '-', '*', '/'] {
                         // strings (also as tuple elements) only concatenate; tuples mixing int and
@@ -423,7 +443,9 @@ impl Check for C19 {
         };
         st.count(&format!("type_kind:{}", kind));
         let viol = |sig: String, extra: J| Violation { signature: sig, hazard: None, case: index, detail: J::obj().with("type", J::s(format!("{:?}", t))).with("source", J::s(src.clone())).with("observed", extra) };
-        let lua_text = match compile_budgeted(&src) {
+        // these programs are long lists of operator applications on large literals: a larger logical budget
+        // than the campaign default (the type checker's cost is super-linear in them)
+        let lua_text = match sy::compile_files(&sy::one_file(&src), "main.sy", &sy::CompileOpts { fuel: Some(12_000_000), ..Default::default() }) {
             Compiled::Ok(b) => String::from_utf8_lossy(&b).to_string(),
             Compiled::Fuel => {
                 st.count("discarded_compile_budget");
